@@ -53,6 +53,7 @@ type idpFault struct {
 	status int
 	body   string
 	hang   time.Duration
+	okOutcome bool // counts as a successful answer in the provider's log (a 200 the relying party can decode)
 	lost   bool // the provider PROCESSES the grant (rotates the refresh token) but its answer never reaches the relying party: the connection is closed instead
 }
 
@@ -282,6 +283,9 @@ func (ip *fakeIdp) token(w http.ResponseWriter, r *http.Request) {
 				}()
 			} else {
 				call.Status, call.Outcome = flt.status, "fault"
+				if flt.okOutcome {
+					call.Outcome = "ok"
+				}
 				writeFault(w, flt)
 				return
 			}
